@@ -6,7 +6,7 @@ import NeumannModel.TxWal.LemmasSync
 
   A *run* is any list of `Step`s (lock / begin / vote / commit / abort / complete_commit /
   complete_abort / force_resolve / cleanup_timeouts / process_pending_aborts / recover_from_wal on
-  the live coordinator / recover / get_pending_decisions / crash) from a fresh coordinator over an
+  the live coordinator / recover / get_pending_decisions / truncate_wal / crash) from a fresh coordinator over an
   empty file.  `crash n now cfg'` cuts the FILE (the bytes `fileOf crc ser log`) to its first `n`
   bytes — any `n` — discards all memory, reopens with the tail repair under configuration `cfg'`
   and runs `recover_from_wal`.  `Valid` only asks that `begin` uses a fresh id and that the records
@@ -14,7 +14,9 @@ import NeumannModel.TxWal.LemmasSync
   Every WAL append may FAIL: the configuration carries the size limit of the file
   (`walCap`, `autoRotate = false` ⇒ `SizeLimitExceeded`), and each call reacts to the failed write as
   the code does (`?`, `Ok(None)`, or carry on).  With `autoRotate = true` the limit rotates the
-  file instead; theorems that need the log to keep its records ask for `Cfg.NoRotate`.
+  file instead; theorems that need the log to keep its records ask for `Cfg.NoRotate` at the start
+  and `KeepsRecords` along the run: every restart configures a WAL that does not rotate, and
+  `truncate_wal` is called only with no transaction pending.
 -/
 namespace Neumann.TxWal.Props
 open Neumann.TxWal Neumann.FramedLog Neumann.TxWal.Demo
@@ -96,11 +98,12 @@ theorem logged_outcome_never_reversed (cfg : Cfg) (steps : List Step)
         · exact hi.oneOutcome id o' o h hlog
         · exact absurd ⟨o, hlog⟩ (hi.pendingOpen id h)
 
-/-- a logged record stays in the log under every call that is not a crash, unless the size
-    limit rotates the file -/
+/-- a logged record stays in the log under every call that is not a crash or `truncate_wal`,
+    unless the size limit rotates the file -/
 theorem logged_record_persists (c : Coord) (hn : c.cfg.NoRotate) (s : Step) (e : Entry)
-    (hs : ∀ n now cfg', s ≠ Step.crash n now cfg') (he : e ∈ c.log) : e ∈ (step crc ser de c s).1.log := by
-  obtain ⟨es, hes⟩ := step_log_grows crc ser de c hn s hs
+    (hs : ∀ n now cfg', s ≠ Step.crash n now cfg') (ht : s ≠ Step.truncate) (he : e ∈ c.log) :
+    e ∈ (step crc ser de c s).1.log := by
+  obtain ⟨es, hes⟩ := step_log_grows crc ser de c hn s hs ht
   rw [hes]; exact List.mem_append_left _ he
 
 -- non-vacuity: the demo run (with its crash inside the commit's records) is valid, the commit's
@@ -196,7 +199,7 @@ example : (run Crc32.crc32 toySer toyDe { cfg := demoCfg } (demoSteps.take 6)).l
     Committing in the log, the log's votes are exactly the votes memory holds (as `record_vote`
     writes them: shard ↦ YES(handle) / NO).  A transaction in a final phase is never pending. -/
 theorem memory_never_ahead_of_log (cfg : Cfg) (steps : List Step) (hcfg : cfg.NoRotate)
-    (hv : Valid crc ser de { cfg := cfg } steps) (hnr : NoRotateSteps steps) (x : Nat) (tx : Tx)
+    (hv : Valid crc ser de { cfg := cfg } steps) (hnr : KeepsRecords crc ser de { cfg := cfg } steps) (x : Nat) (tx : Tx)
     (hm : (x, tx) ∈ (run crc ser de { cfg := cfg } steps).pending) :
     ∃ ip, (x, ip) ∈ (scan (run crc ser de { cfg := cfg } steps).log).inProgress
       ∧ ip.parts = tx.parts
@@ -212,13 +215,15 @@ theorem memory_never_ahead_of_log (cfg : Cfg) (steps : List Step) (hcfg : cfg.No
 
 -- non-vacuity: the demo run up to the second YES vote is valid, never rotates, and holds
 -- transaction 1 as Prepared in memory
-example : Valid Crc32.crc32 toySer toyDe { cfg := demoCfg } (demoSteps.take 6) ∧ NoRotateSteps (demoSteps.take 6)
+example : Valid Crc32.crc32 toySer toyDe { cfg := demoCfg } (demoSteps.take 6)
+    ∧ KeepsRecords Crc32.crc32 toySer toyDe { cfg := demoCfg } (demoSteps.take 6)
     ∧ (mLookup 1 (run Crc32.crc32 toySer toyDe { cfg := demoCfg } (demoSteps.take 6)).pending).map (·.phase)
         = some .prepared := by decide
 -- ... and on the 40-byte WAL that refuses to grow the same calls are a valid run in which the
 -- PhaseChange -> Prepared cannot be written: `record_vote` answers Ok(None), memory holds both votes
 -- and stays Preparing, the log holds the four records that fitted
 example : Valid Crc32.crc32 toySer toyDe { cfg := demoFullCfg } (demoSteps.take 6) ∧ demoFullCfg.NoRotate
+    ∧ KeepsRecords Crc32.crc32 toySer toyDe { cfg := demoFullCfg } (demoSteps.take 6)
     ∧ (step Crc32.crc32 toySer toyDe (run Crc32.crc32 toySer toyDe { cfg := demoFullCfg } (demoSteps.take 5))
         (.vote 1 1 (.yes 8) false)).2 = Res.phase none
     ∧ (mLookup 1 (run Crc32.crc32 toySer toyDe { cfg := demoFullCfg } (demoSteps.take 6)).pending).map
@@ -238,7 +243,7 @@ example : Valid Crc32.crc32 toySer toyDe { cfg := demoFullCfg } (demoSteps.take 
     overwrites a vote (what the pre-fix scan violated, see `rejected_vote_overwrites_witness`),
     and the restored transaction is again all-YES. -/
 theorem prepared_come_back_with_votes (cfg : Cfg) (steps : List Step) (hcfg : cfg.NoRotate)
-    (hv : Valid crc ser de { cfg := cfg } steps) (hnr : NoRotateSteps steps) (n now : Nat) (cfg' : Cfg)
+    (hv : Valid crc ser de { cfg := cfg } steps) (hnr : KeepsRecords crc ser de { cfg := cfg } steps) (n now : Nat) (cfg' : Cfg)
     (h : CodecOK crc ser de (run crc ser de { cfg := cfg } steps).log) (x : Nat) (ip : InProg)
     (hm : (x, ip) ∈ (scan ((run crc ser de { cfg := cfg } steps).log.take
             (wholeWithin crc ((run crc ser de { cfg := cfg } steps).log.map ser) n))).inProgress)
@@ -283,7 +288,7 @@ theorem recovered_prepared_can_be_completed (c : Coord) (n now : Nat) (cfg' : Cf
     `get_pending_decisions()` as a commit — and not as an abort — and `complete_commit` finishes
     it. -/
 theorem recovered_prepared_is_driven_to_commit (cfg : Cfg) (steps : List Step) (hcfg : cfg.NoRotate)
-    (hv : Valid crc ser de { cfg := cfg } steps) (hnr : NoRotateSteps steps) (n now : Nat) (cfg' : Cfg)
+    (hv : Valid crc ser de { cfg := cfg } steps) (hnr : KeepsRecords crc ser de { cfg := cfg } steps) (n now : Nat) (cfg' : Cfg)
     (h : CodecOK crc ser de (run crc ser de { cfg := cfg } steps).log) (x : Nat) (ip : InProg)
     (hm : (x, ip) ∈ (scan ((run crc ser de { cfg := cfg } steps).log.take
             (wholeWithin crc ((run crc ser de { cfg := cfg } steps).log.map ser) n))).inProgress)
@@ -322,7 +327,7 @@ theorem recovered_prepared_is_driven_to_commit (cfg : Cfg) (steps : List Step) (
     the process: restart on the whole file brings it back Prepared with the same participants and,
     shard by shard, the votes memory held (a Conflict vote comes back as NO, as logged). -/
 theorem prepared_in_memory_is_durable (cfg : Cfg) (steps : List Step) (hcfg : cfg.NoRotate)
-    (hv : Valid crc ser de { cfg := cfg } steps) (hnr : NoRotateSteps steps) (n now : Nat) (cfg' : Cfg)
+    (hv : Valid crc ser de { cfg := cfg } steps) (hnr : KeepsRecords crc ser de { cfg := cfg } steps) (n now : Nat) (cfg' : Cfg)
     (h : CodecOK crc ser de (run crc ser de { cfg := cfg } steps).log)
     (hn : (fileOf crc ser (run crc ser de { cfg := cfg } steps).log).length ≤ n) (x : Nat) (tx : Tx)
     (hm : (x, tx) ∈ (run crc ser de { cfg := cfg } steps).pending) (hp : tx.phase = .prepared) :
@@ -372,6 +377,35 @@ theorem preparing_forgotten_without_locks (c : Coord) (n now : Nat) (cfg' : Cfg)
         exact absurd hft (hno f t)
     exact ⟨hnone, by simp [step, commit, hnone], by simp [step, abort, hnone]⟩
 
+/-- **Transactions cut down in the middle of a decision come back as pending decisions.**  After a
+    crash at any byte and restart, a transaction whose last surviving PhaseChange says Committing
+    (the crash fell between the two records of `commit`, or the TxComplete write failed) or
+    Aborting is pending again in that phase with the scan's participants and votes, is listed by
+    `get_pending_decisions()` with that phase, and `complete_commit` / `complete_abort` finishes
+    it. -/
+theorem deciding_come_back (c : Coord) (n now : Nat) (cfg' : Cfg) (h : CodecOK crc ser de c.log)
+    (x : Nat) (ip : InProg)
+    (hm : (x, ip) ∈ (scan (c.log.take (wholeWithin crc (c.log.map ser) n))).inProgress)
+    (hp : ip.phase = .committing ∨ ip.phase = .aborting) :
+    mLookup x (step crc ser de c (.crash n now cfg')).1.pending
+        = some (restoreTx ⟨x, ip.parts, ip.votes⟩ ip.phase now)
+    ∧ (x, ip.phase) ∈ pendingDecisions (step crc ser de c (.crash n now cfg')).1
+    ∧ (ip.phase = .committing → (completeCommit (step crc ser de c (.crash n now cfg')).1 x).2 = Res.ok)
+    ∧ (ip.phase = .aborting → (completeAbort (step crc ser de c (.crash n now cfg')).1 x).2 = Res.ok) := by
+  rw [step_crash_eq crc ser de c n now cfg' h]
+  have hl := restart_phase cfg' _ now x ip hm (Or.inr hp)
+  refine ⟨hl, ?_, ?_, ?_⟩
+  · simp only [pendingDecisions, List.mem_map, List.mem_filter]
+    refine ⟨(x, restoreTx ⟨x, ip.parts, ip.votes⟩ ip.phase now), ⟨mLookup_some_mem _ _ _ hl, ?_⟩, rfl⟩
+    simp only [restoreTx]; exact decide_eq_true hp
+  · intro hph; simp [completeCommit, hl, restoreTx, hph]
+  · intro hph; simp [completeAbort, hl, restoreTx, hph]
+
+-- non-vacuity: cut the demo file between the two records of the commit (byte 54..67): the
+-- PhaseChange -> Committing survived, the TxComplete did not
+example : (1, (⟨[0, 1], [(0, .yes 7), (1, .yes 8)], .committing⟩ : InProg))
+    ∈ (scan (demoPre.log.take (wholeWithin Crc32.crc32 (demoPre.log.map toySer) 60))).inProgress := by decide
+
 -- non-vacuity: cut the demo file after the PhaseChange->Prepared record (byte 45..53): transaction
 -- 1 is Prepared in the surviving log and comes back with both YES votes; cut it before that record
 -- (byte 40): no PhaseChange survives and the transaction is forgotten
@@ -381,12 +415,13 @@ example : ∀ f t, Entry.phaseChange 1 f t ∉ demoPre.log.take (wholeWithin Crc
   intro f t; cases f <;> cases t <;> decide
 -- the run that leads to `demoPre` is valid and never rotates; its one acknowledgement is
 -- transaction 1 with the two accepted YES votes (the refused duplicate NO of shard 0 is not in it)
-example : Valid Crc32.crc32 toySer toyDe { cfg := demoCfg } (demoSteps.take 7) ∧ NoRotateSteps (demoSteps.take 7)
+example : Valid Crc32.crc32 toySer toyDe { cfg := demoCfg } (demoSteps.take 7)
+    ∧ KeepsRecords Crc32.crc32 toySer toyDe { cfg := demoCfg } (demoSteps.take 7)
     ∧ (acks Crc32.crc32 toySer toyDe { cfg := demoCfg } (demoSteps.take 7)).map (fun p => (p.1, p.2.votes))
         = [(1, [(1, Vote.yes 8), (0, Vote.yes 7)])] := by decide
 example : demoCfg.walCap = none := rfl
 
-/-! ### rotation: outside `NoRotate` -/
+/-! ### rotation and truncation: outside `KeepsRecords` -/
 
 /-- **Size-limit rotation drops in-flight transactions from recovery.**  With `auto_rotate` (the
     default) the append that exceeds `max_size_bytes` renames the current file away and starts a
@@ -401,6 +436,19 @@ theorem rotation_forgets_prepared_witness :
     ∧ c.log = [Entry.phaseChange 1 .preparing .prepared]
     ∧ mLookup 1 (restartLog demoRotCfg c.log 200).pending = none
     ∧ ¬ demoRotCfg.NoRotate := by
+  decide
+
+/-- **`truncate_wal` with a transaction pending forgets it.**  `truncate_wal()` replaces the file by
+    an empty one whatever is pending (`KeepsRecords` asks for `pending = []` at that point).  After
+    the demo's transaction 1 became Prepared, a truncation leaves it Prepared in memory and a
+    restart on the (empty) file has forgotten it. -/
+theorem truncate_forgets_prepared_witness :
+    let c := run Crc32.crc32 toySer toyDe { cfg := demoCfg } (demoSteps.take 6 ++ [.truncate])
+    (mLookup 1 c.pending).map (·.phase) = some .prepared
+    ∧ c.log = []
+    ∧ mLookup 1 (restartLog demoCfg c.log 200).pending = none
+    ∧ Valid Crc32.crc32 toySer toyDe { cfg := demoCfg } (demoSteps.take 6 ++ [.truncate])
+    ∧ ¬ KeepsRecords Crc32.crc32 toySer toyDe { cfg := demoCfg } (demoSteps.take 6 ++ [.truncate]) := by
   decide
 
 /-! ### the defects the fixes removed, as concrete witnesses -/
